@@ -169,6 +169,68 @@ Proof.
 Qed.
 Print Assumptions C14_terminates.
 
+(* what a retry loop waits for: whenever a step of any actor is a retry iteration, some PRESENT
+   partition is exclusively locked, its locker is an actor of the system and the locker's next
+   step is never a retry (so a spinner never waits for something that left the index) *)
+Theorem C14_spin_waits_for_locker : forall ix0 progs sched i c, clean ix0 ->
+  let s := reach ix0 progs sched in
+  snd (mstep_f s i c) = Spun ->
+  exists p td j b, get (s_ix s) p = Some td /\ t_excl td = true /\ nth_error (s_acts s) j = Some b /\
+    locker b = Some p /\ forall c', snd (mstep_f s j c') = Moved.
+Proof. intros ix0 progs sched i c C s. exact (inv_spin_cause s i c (reach_inv ix0 progs sched C)). Qed.
+Print Assumptions C14_spin_waits_for_locker.
+
+(* the waiting visit (Partitions listing, GetJournals) in its acquire loop for the snapshot entry x,
+   in any reachable state - in particular after x was locked, deleted and its tag line re-created
+   under a new source id while the visit was waiting: (1) if x is not in the index any more the
+   iteration skips it and goes on, whatever the tag index says about x's tag line; (2) if the
+   iteration is a retry then x itself is present and exclusive and its locker can move *)
+Theorem C14_waiting_visit : forall ix0 progs sched i c a x, clean ix0 ->
+  let s := reach ix0 progs sched in
+  nth_error (s_acts s) i = Some a -> a_ctl a = CTry x ->
+  (get (s_ix s) x = None ->
+     mstep_f s i c = ({| s_ix := s_ix s; s_acts := set_nth (s_acts s) i (with_ctl a CNext); s_panic := s_panic s |}, Moved)) /\
+  (snd (mstep_f s i c) = Spun ->
+     exists td j b, get (s_ix s) x = Some td /\ t_excl td = true /\ nth_error (s_acts s) j = Some b /\
+       locker b = Some x /\ forall c', snd (mstep_f s j c') = Moved).
+Proof.
+  intros ix0 progs sched i c a x C s Ha Hc. split.
+  - intros G. unfold mstep_f. rewrite Ha. rewrite (astep_try_removed (s_ix s) a c x Hc G).
+    rewrite Bool.orb_false_r. reflexivity.
+  - exact (inv_try_spin_cause s i c a x (reach_inv ix0 progs sched C) Ha Hc).
+Qed.
+Print Assumptions C14_waiting_visit.
+
+(* why the removed-partition test of visitWaitingIfLocked must look the SOURCE ID up (smap) and not
+   the tag line (tmap): wacq_by_tag (model/TIndex.v; not the code, not run by K) is the iteration
+   with the lookup by tag line.  In a state the code reaches - a Partitions listing waits for
+   partition 1 while Truncate deletes it and a writer re-creates tag line 1 as partition 2; the
+   deleter and the writer have finished, nothing in the index is exclusive - the code's iteration
+   skips partition 1, the variant answers "retry" although no actor is left that could ever
+   change the state: it would wait for ever *)
+Theorem C14_removed_check_by_tags_refuted : exists ix0 progs sched a x,
+  clean ix0 /\
+  let s := reach ix0 progs sched in
+  nth_error (s_acts s) 0 = Some a /\ a_ctl a = CTry x /\ get (s_ix s) x = None /\
+  (forall j b, j <> 0 -> nth_error (s_acts s) j = Some b -> finished b = true) /\
+  (forall p td, get (s_ix s) p = Some td -> t_excl td = false) /\
+  (exists q td, q <> x /\ get (s_ix s) q = Some td /\ t_tag td = tag_of (s_ix s) x) /\
+  wacq (s_ix s) x = WRemoved /\ wacq_by_tag (s_ix s) x = WSpin.
+Proof.
+  exists [{| t_tag := 0; t_readers := 0; t_excl := false; t_live := true |};
+          {| t_tag := 1; t_readers := 0; t_excl := false; t_live := true |}].
+  exists [[PVisit false false [0; 1] None]; [PTrunc [0; 1] [0; 1] [] false None]; [PWrite 1 true]].
+  exists ([(0,0);(0,0);(0,0); (1,1);(1,1);(1,1);(1,1);(1,1); (0,1);(0,1); (1,0);(1,0); (2,0);(2,0)] ++ repeat (1,0) 11 ++ repeat (2,0) 5).
+  eexists. exists 1. split.
+  { split; [reflexivity|]. repeat constructor; cbn; intuition discriminate. }
+  cbv zeta. split; [vm_compute; reflexivity|]. split; [reflexivity|]. split; [vm_compute; reflexivity|].
+  split. { intros [|[|[|j]]] b N; [congruence| | |]; vm_compute; intros E; try (injection E as <-; reflexivity); destruct j; discriminate E. }
+  split. { intros [|[|[|p]]] td; vm_compute; intros E; try discriminate E; try (injection E as <-; reflexivity); destruct p; discriminate E. }
+  split. { exists 2. eexists. split; [discriminate|]. split; vm_compute; reflexivity. }
+  split; vm_compute; reflexivity.
+Qed.
+Print Assumptions C14_removed_check_by_tags_refuted.
+
 (* ---- non-vacuity ---- *)
 
 Definition ix2 : tix := [{| t_tag := 0; t_readers := 0; t_excl := false; t_live := true |};
@@ -194,3 +256,28 @@ Example ex_quiescent :
   let s := reach ix2 [[PTrunc [0; 1] [0; 1] [] false None]; [PWrite 0 true]] (repeat (0,0) 20 ++ repeat (1,0) 6) in
   all_finished s = true /\ length (s_ix s) = 3 /\ (exists td, get (s_ix s) 2 = Some td /\ t_tag td = 0 /\ t_readers td = 0%Z).
 Proof. vm_compute. split; [reflexivity|split; [reflexivity|eexists; split; [reflexivity|split; reflexivity]]]. Qed.
+
+(* the history of C14_waiting_visit: the waiting visit spins on the exclusively locked partition 1
+   (h_wait); the lock holder deletes it, a writer re-creates tag line 1 as partition 2, the holder
+   calls UnlockExclusively (h_recreated): the visit's next iteration moves on; and the rest of the
+   schedule lets everybody finish with every count 0 *)
+Definition progs_rc : list (list proc) := [[PVisit false false [0; 1] None]; [PTrunc [0; 1] [0; 1] [] false None]; [PWrite 1 true]].
+Definition h_wait : schedule := [(0,0);(0,0);(0,0); (1,1);(1,1);(1,1);(1,1);(1,1); (0,1);(0,1)].
+Definition h_recreated : schedule := h_wait ++ [(1,0);(1,0); (2,0);(2,0); (1,0)].
+Example ex_recreate_under_waiting_visit :
+  let s1 := reach ix2 progs_rc h_wait in
+  let s2 := reach ix2 progs_rc h_recreated in
+  let s3 := reach ix2 progs_rc (h_recreated ++ repeat (0,0) 8 ++ repeat (1,0) 10 ++ repeat (2,0) 5) in
+  (exists a, nth_error (s_acts s1) 0 = Some a /\ a_ctl a = CTry 1) /\ snd (mstep_f s1 0 0) = Spun /\
+  (exists td, get (s_ix s1) 1 = Some td /\ t_excl td = true) /\
+  (exists a, nth_error (s_acts s2) 0 = Some a /\ a_ctl a = CTry 1) /\ get (s_ix s2) 1 = None /\
+  (exists td, get (s_ix s2) 2 = Some td /\ t_tag td = 1) /\ snd (mstep_f s2 0 0) = Moved /\
+  all_finished s3 = true /\
+  (forall p td, get (s_ix s3) p = Some td -> t_readers td = 0%Z /\ t_excl td = false).
+Proof.
+  cbv zeta. split; [eexists; split; vm_compute; reflexivity|]. split; [vm_compute; reflexivity|].
+  split; [eexists; split; vm_compute; reflexivity|]. split; [eexists; split; vm_compute; reflexivity|].
+  split; [vm_compute; reflexivity|]. split; [eexists; split; vm_compute; reflexivity|].
+  split; [vm_compute; reflexivity|]. split; [vm_compute; reflexivity|].
+  intros [|[|[|p]]] td; vm_compute; intros E; try discriminate E; try (injection E as <-; split; reflexivity); destruct p; discriminate E.
+Qed.
